@@ -18,6 +18,8 @@ fn ob(x: &Option<&[u8]>) -> String {
 fn time_str(t: &Time) -> String {
     match t {
         Time::SecIndex(n) => format!("T{:x}", n),
+        #[allow(unreachable_patterns)]
+        _ => "T?unknown-variant".to_string(),
     }
 }
 fn status_str(s: &Status) -> String {
@@ -26,6 +28,8 @@ fn status_str(s: &Status) -> String {
         Status::Status16(n) => format!("S16:{:x}", n),
         Status::Status32(n) => format!("S32:{:x}", n),
         Status::Status64(n) => format!("S64:{:x}", n),
+        #[allow(unreachable_patterns)]
+        _ => "S?unknown-variant".to_string(),
     }
 }
 fn sx(v: i64) -> String {
@@ -48,6 +52,8 @@ fn value_str(v: &Value) -> String {
         Value::U32(x) => format!("U32:{:x}", x),
         Value::U64(x) => format!("U64:{:x}", x),
         Value::List(ListType::Time(t)) => format!("L({})", time_str(t)),
+        #[allow(unreachable_patterns)]
+        _ => "V?unknown-variant".to_string(),
     }
 }
 fn le_str(e: &ListEntry) -> String {
@@ -93,6 +99,8 @@ fn msg_str(m: &Message) -> String {
         MessageBody::OpenResponse(o) => open_str(o),
         MessageBody::CloseResponse(c) => close_str(c),
         MessageBody::GetListResponse(g) => glr_str(g),
+        #[allow(unreachable_patterns)]
+        _ => "(?unknown-body)".to_string(),
     };
     format!("(M {} {:x} {:x} {})", hex(m.transaction_id), m.group_no, m.abort_on_error, b)
 }
@@ -108,12 +116,16 @@ pub fn perr_str(e: &ParseError) -> String {
                 TlfParseError::TlfLengthUnderflow => "Underflow",
                 TlfParseError::TlfNextByteTypeMismatch => "NextByte",
                 TlfParseError::TlfInvalidTy => "InvalidTy",
+                #[allow(unreachable_patterns)]
+                _ => "Unknown",
             }
         ),
         ParseError::TlfMismatch(_) => "Mismatch".to_string(),
         ParseError::CrcMismatch => "Crc".to_string(),
         ParseError::MsgEndMismatch => "MsgEnd".to_string(),
         ParseError::UnexpectedVariant => "Variant".to_string(),
+        #[allow(unreachable_patterns)]
+        _ => "Unknown".to_string(),
     }
 }
 pub fn file_str(f: &File) -> String {
@@ -133,6 +145,8 @@ pub fn event_str(e: &ParseEvent) -> String {
                     opt(&g.act_sensor_time, time_str),
                     g.num_vals
                 ),
+                #[allow(unreachable_patterns)]
+                _ => "(?unknown-body)".to_string(),
             };
             format!("(MS {} {:x} {:x} {})", hex(m.transaction_id), m.group_no, m.abort_on_error, b)
         }
@@ -140,6 +154,8 @@ pub fn event_str(e: &ParseEvent) -> String {
             format!("(GE {} {})", ob(&g.list_signature), opt(&g.act_gateway_time, time_str))
         }
         ParseEvent::ListEntry(e) => le_str(e),
+        #[allow(unreachable_patterns)]
+        _ => "(?unknown-event)".to_string(),
     }
 }
 
@@ -209,6 +225,18 @@ pub fn handle(f: &[&str]) -> Option<String> {
                 }
             }));
             let (b2, c2) = crate::alloc_snapshot();
+            // collecting the iterator: what it reserves must be bounded by the number of items it can yield (size_hint),
+            // never by a declared length
+            let mut items = 0u64;
+            let r3 = catch_unwind(AssertUnwindSafe(|| {
+                let v: Vec<_> = Parser::new(&bs).collect();
+                items = v.len() as u64;
+            }));
+            let (b3, _c3) = crate::alloc_snapshot();
+            let collect_ok = r3.is_ok() && (b3 - b2) <= 256 * (items + bs.len() as u64) + 4096;
+            if !collect_ok {
+                return Some(format!("collect-requested={}:items={}:len={}", b3 - b2, items, bs.len()));
+            }
             Some(format!(
                 "complete={}:bytes={}:calls={};streaming={}:bytes={}:calls={}",
                 match r {
